@@ -32,6 +32,8 @@ pub fn shards(tier: &str) -> Vec<String> {
     v.extend(hist::shards_for(&["mtbddk"], &["n32c16t1k4"], p));
     // ZBDDs through their set-family operations (results are often nodes of the manager's own tautology chain)
     v.extend(hist::shards_for(&["zbdds"], &["n32c16t1"], p));
+    // the multi-threaded recursion (split depth 4) on one worker, ample and tight (failing) stores
+    v.extend(hist::shards_for(&["bdd", "bcdd", "zbdd"], &["n12c16t1d4"], p));
     // every action issued from inside a session of another manager
     v.extend(hist::shards_for(&["bdd", "zbdd", "mtbdd"], &["n32c16t1x"], p));
     v
